@@ -1,0 +1,109 @@
+//go:build verif
+
+package asp
+
+import (
+	"bytes"
+	"encoding/json"
+	"sort"
+
+	"github.com/thought-machine/please/src/core"
+)
+
+// This file only exists under the "verif" build tag. It exposes the interpreter's unexported
+// evaluation entry points to the property checks in /verif without changing any of them.
+
+// A VerifScope is the package scope left behind by VerifInterpret. It is kept alive so that the
+// values it holds can be dumped again later (after other files have been interpreted).
+type VerifScope struct {
+	s *scope
+}
+
+// VerifInterpret parses src as the BUILD file of pkg and interprets it exactly as ParseReader does
+// (same limiter handling, same interpretAll call), but hands back the resulting scope instead of
+// dropping it.
+func (p *Parser) VerifInterpret(pkg *core.Package, src []byte, mode core.ParseMode) (*VerifScope, error) {
+	p.limiter.Acquire()
+	defer p.limiter.Release()
+
+	stmts, err := p.parseAndHandleErrors(bytes.NewReader(src))
+	if err != nil {
+		return nil, err
+	}
+	s, err := p.interpreter.interpretAll(pkg, nil, nil, mode, stmts)
+	if s == nil {
+		return nil, err
+	}
+	return &VerifScope{s: s}, err
+}
+
+// VerifSubinclude evaluates the file at path through the real interpreter.Subinclude (parsed,
+// optimised, interpreted once per path, frozen, cached) on behalf of pkg and returns its frozen
+// globals wrapped as a scope.
+func (p *Parser) VerifSubinclude(pkg *core.Package, path string, label core.BuildLabel) (vs *VerifScope, err error) {
+	p.limiter.Acquire()
+	defer p.limiter.Release()
+	defer func() {
+		if r := recover(); r != nil {
+			err = handleErrors(r)
+		}
+	}()
+	ps := p.interpreter.scope.NewPackagedScope(pkg, 0, 1)
+	ps.config = p.interpreter.getConfig(ps.state).Copy()
+	ps.Set("CONFIG", ps.config)
+	globals := p.interpreter.Subinclude(ps, path, label, false)
+	s := p.interpreter.scope.NewScope(path, 0)
+	s.locals = globals
+	return &VerifScope{s: s}, nil
+}
+
+// Globals serialises the top-level names of the scope (its own locals, i.e. not the builtins) as a
+// JSON object, using the same MarshalJSON methods as the json() builtin. Functions and CONFIG
+// objects are left out; names is an optional whitelist.
+func (v *VerifScope) Globals(names ...string) (out []byte, err error) {
+	defer func() {
+		if r := recover(); r != nil {
+			err = handleErrors(r)
+		}
+	}()
+	want := map[string]bool{}
+	for _, n := range names {
+		want[n] = true
+	}
+	keys := make([]string, 0, len(v.s.locals))
+	for k := range v.s.locals {
+		keys = append(keys, k)
+	}
+	sort.Strings(keys)
+	m := make(map[string]json.RawMessage, len(keys))
+	for _, k := range keys {
+		if len(want) > 0 && !want[k] {
+			continue
+		}
+		switch v.s.locals[k].(type) {
+		case *pyFunc, *pyConfig, *pyFrozenConfig:
+			continue
+		}
+		b, err := json.Marshal(v.s.locals[k])
+		if err != nil {
+			return nil, err
+		}
+		m[k] = b
+	}
+	return json.Marshal(m)
+}
+
+// Types returns the asp type name of each top-level name (as Type() reports it, with a "frozen "
+// prefix for the frozen wrappers).
+func (v *VerifScope) Types() map[string]string {
+	m := make(map[string]string, len(v.s.locals))
+	for k, o := range v.s.locals {
+		switch o.(type) {
+		case pyFrozenList, pyFrozenDict, *pyFrozenConfig:
+			m[k] = "frozen " + o.Type()
+		default:
+			m[k] = o.Type()
+		}
+	}
+	return m
+}
